@@ -1,6 +1,7 @@
 """C11 - errors surface unwrapped; partial results are exactly the completed work (DESIGN 4, C11)."""
 from __future__ import annotations
 
+import copy
 import itertools
 
 from .. import templates as T
@@ -65,10 +66,49 @@ def _cases(tier):
     yield ("runner.map", c15.map_item_graph(True), {"x": [["i", 0], ["i", 1], ["i", 2]]}, {"method": "map", "map_over": "x"})
 
 
+def error_beside_nested_pause(acc):
+    """A node raises in the step in which a sibling nested graph pauses at an interrupt (async runner, all completion orders, nested
+    graph one and two levels deep, failing node flat or nested, both error modes).  With the failing node FIRST in ready order its
+    exception is the first error of the step: it must surface (identity), never be replaced by the pause.  (With the pausing graph
+    first the step's first 'error' is the pause itself - recorded, not judged.)"""
+    from ..explorer import explore
+
+    for pdepth in (1, 2):
+        inner = T.prog([T.interrupt("ask", ["e0"], ["ans"], behav="pause")], name="pz")
+        pnode = T.gnode("pz", inner)
+        for d in range(2, pdepth + 1):
+            pnode = T.gnode(f"pz{d}", T.prog([pnode], name=f"pz{d}"))
+        for fdepth in (0, 1):
+            bad = T.fn("bad", ["e0"], ["b0"])
+            bnode = bad if fdepth == 0 else T.gnode("bw", T.prog([bad], name="bw"))
+            for order in ("bad-first", "pause-first"):
+                nodes = [bnode, pnode] if order == "bad-first" else [pnode, bnode]
+                prog = T.set_async(T.prog(copy.deepcopy(nodes) + [T.fn("ok", ["e0"], ["k0"])]), True)
+                for sp in T.all_specs(prog):
+                    if sp["kind"] == "interrupt":
+                        sp.pop("async", None)
+                for eh in ("raise", "continue"):
+                    def run(ch):
+                        h = H(ch, suspend=True, fault={("bad", None)})
+                        return execute(prog, {"e0": ["prov", "e0"]}, runner="async", chooser=ch, h=h, error_handling=eh)
+
+                    for ch, x in explore(run, bound=None, max_execs=500):
+                        acc.evaluations += 1
+                        acc.key(("error-beside-pause", pdepth, fdepth, order, eh, tuple(ch.choices)))
+                        err = x.exc if x.exc is not None else (x.result.error if x.result is not None else None)
+                        st = x.status
+                        if order == "pause-first":
+                            acc.observations[f"pause listed before the failing node in one step: run ends {st}"] += 1
+                            continue
+                        ok = isinstance(err, InjectedError) and x.h.injected and err is x.h.injected[0] and st in ("raised", "failed")
+                        if not ok:
+                            acc.violation({"symptom": "error-replaced-by-pause", "eh": eh}, {"error_beside_nested_pause": True}, f"failing node listed before a nested graph that pauses (pause depth {pdepth}, failing node depth {fdepth}, error_handling={eh}, schedule {ch.choices}): run ended {st} with {type(err).__name__ if err is not None else None} instead of surfacing the node's exception")
+
+
 def shards(tier, seed):
     n = sum(1 for _ in _cases(tier))
     k = 64 if tier == "quick" else 192
-    return [(tier, seed, s, k) for s in range(min(k, n))]
+    return [(tier, seed, s, k) for s in range(min(k, n))] + [(tier, seed, "pause", 0)]
 
 
 def _fault_sets(prog, family):
@@ -225,6 +265,9 @@ def _exec(prog, inputs, extra, runner, faults, eh, ch):
 def run_shard(shard):
     tier, seed, s, k = shard
     acc = Acc()
+    if s == "pause":
+        error_beside_nested_pause(acc)
+        return acc
     for ci, (family, prog, inputs, extra) in enumerate(_cases(tier)):
         if ci % k != s:
             continue
@@ -266,6 +309,10 @@ def coverage_extra(acc, tier, seed):
 
 
 def replay(rep):
+    if rep.get("error_beside_nested_pause"):
+        a = Acc()
+        error_beside_nested_pause(a)
+        return [v["message"] for v in a.violations.values()]
     prog, inputs, extra, eh = rep["program"], rep["inputs"], rep.get("extra", {}), rep["eh"]
     faults = frozenset((a, b) for a, b in rep["faults"])
     is_map = extra.get("method") == "map"
